@@ -185,6 +185,72 @@ def restart (st : St) (now : Nat) : St :=
   { st with rl := st.rl.map (fun l => { l with recs := FMap.empty }), mem := live, db := live }
 
 
+/-! ### handleLogin is two steps; N logins at once
+
+A login request first asks the limiter (`check`), then evaluates the password
+and counts the failure / clears the count (`newCookie`).  Every handler of a
+modifying method, POST /control/login included, runs under
+`globalContext.controlLock` (control.go `ensure`), taken before the first and
+released after the second step. -/
+
+/-- step 1: `rateLimiter.check`; `some` = answered 429 right away -/
+def login1 (st : St) (now : Nat) (r : Req) : Option LoginRes × St :=
+  match st.rl with
+  | none => (none, st)
+  | some l =>
+    let (left, l') := l.check (checkAddr r) now
+    if left > 0 then (some (.tooMany (left / nsPerSec)), { st with rl := some l' })
+    else (none, { st with rl := some l' })
+
+/-- step 2: `newCookie` -/
+def login2 (st : St) (now : Nat) (r : Req) (good : Bool) (user : Nat) : LoginRes × St :=
+  evalLogin st st.rl now (countAddr r) good user
+
+structure Job where
+  req : Req
+  good : Bool
+  user : Nat
+  deriving Repr
+
+/-- N login requests in flight at one instant. -/
+structure Conc where
+  st : St
+  /-- who holds controlLock -/
+  holder : Option Nat
+  /-- per request: 0 not started, 1 between the two steps, 2 answered -/
+  pc : Nat → Nat
+  res : Nat → Option LoginRes
+  /-- ghost: the requests in the order in which their handlers started -/
+  order : List Nat
+
+def Conc.init (st : St) : Conc := ⟨st, none, fun _ => 0, fun _ => none, []⟩
+
+/-- request `i` makes its next step if it can (`lock`: handlers run under
+controlLock) -/
+def stepT (lock : Bool) (now : Nat) (job : Nat → Job) (c : Conc) (i : Nat) : Conc :=
+  if c.pc i = 0 then
+    if lock && c.holder.isSome then c
+    else
+      match login1 c.st now (job i).req with
+      | (some r, st') =>
+        { c with st := st', pc := fun k => if k = i then 2 else c.pc k,
+                 res := fun k => if k = i then some r else c.res k, order := c.order ++ [i] }
+      | (none, st') =>
+        { c with st := st', holder := if lock then some i else c.holder,
+                 pc := fun k => if k = i then 1 else c.pc k, order := c.order ++ [i] }
+  else if c.pc i = 1 then
+    let r := login2 c.st now (job i).req (job i).good (job i).user
+    { c with st := r.2, holder := if lock then none else c.holder,
+             pc := fun k => if k = i then 2 else c.pc k,
+             res := fun k => if k = i then some r.1 else c.res k }
+  else c
+
+/-- the same requests one after the other -/
+def seqLogins (now : Nat) (job : Nat → Job) (st : St) (order : List Nat) : St × (Nat → Option LoginRes) :=
+  order.foldl (fun acc i =>
+    let r := handleLogin acc.1 now (job i).req (job i).good (job i).user
+    (r.2, fun k => if k = i then some r.1 else acc.2 k)) (st, fun _ => none)
+
 /-! ### removeSession is two steps
 
 `removeSession` first deletes the map entry under `a.lock`, releases the lock,
